@@ -73,9 +73,9 @@ def robust_sample_std(x, axis):
     return winsorize_std(x, axis=-1)
 
 
-def boot_sigma(data, conf, num_iterations=10000, winsorize=False):
+def boot_sigma(data, conf, num_iterations=10000, winsorize=False, seed=None):
     """
-    Bootstrap standard deviation.
+    Bootstrap standard deviation. If seed is given the resampling is reproducible.
     """
     # we use upper bound of confidence interval for more robustness
     if winsorize:
@@ -83,8 +83,14 @@ def boot_sigma(data, conf, num_iterations=10000, winsorize=False):
     else:
         std_func = sample_std
 
+    random_state = np.random.default_rng(seed) if seed is not None else None
     return bootstrap(
-        data.reshape(1, -1), std_func, confidence_level=conf, method="basic", n_resamples=num_iterations
+        data.reshape(1, -1),
+        std_func,
+        confidence_level=conf,
+        method="basic",
+        n_resamples=num_iterations,
+        random_state=random_state,
     ).confidence_interval.high
 
 
